@@ -166,9 +166,9 @@ def translate(qmluic, workdir, programs):
 # ----------------------------------------------------------------------------------------- analysis
 class Analysis:
     """both sides of one program under one Prims instance"""
-    def __init__(self, prog, header, nprog, abstract, enums=None):
+    def __init__(self, prog, header, nprog, abstract, enums=None, concrete_lib=False):
         self.prog = prog
-        self.P = Prims(abstract)
+        self.P = Prims(abstract, concrete_lib)
         self.env = make_env(nprog, prog.target())
         self.store = R.Store(self.env)
         self.enums = enums or E.ENUMS
